@@ -1043,9 +1043,12 @@ func (e *Evaluator) evalStatement(stmt Statement) error {
 				}
 			}
 		case ValueObj:
+			// the loop runs over the object the expression had when the loop started:
+			// the body may assign something else to the variable it came from
+			obj := iterable.Value.Obj
 			for _, k := range iterable.Value.sortedKeys() {
 				if indexLocal != nil {
-					indexLocal.Value = (*iterable.Value.Obj)[k].Value
+					indexLocal.Value = (*obj)[k].Value
 				}
 				local.Value = NewValue(k)
 				err := e.evalStatement(st.Body)
